@@ -59,9 +59,10 @@ Theorem C14_revoke_needs_admin : forall pol s now req e sec s',
   op_revoke pol true s now req e sec = (s', R_OK) -> req <> root ->
   Conferred pol (members s) (live_grants s now) req sec 3.
 Proof. exact op_revoke_needs_admin. Qed.
-Theorem C14_delegate_needs_level : forall pol maxd s now parent child sec lvl ttl s',
-  op_delegate pol true maxd s now parent child sec lvl ttl = (s', R_OK) -> parent <> root -> 1 <= lvl ->
-  Conferred pol (members s) (live_grants s now) parent sec lvl.
+Theorem C14_delegate_needs_level : forall pol maxd s now parent child secs lvl ttl s',
+  op_delegate pol true maxd s now parent child secs lvl ttl = (s', R_OK) -> parent <> root -> 1 <= lvl ->
+  forall x, In x secs -> exists s0, (s0 = s \/ exists k, s0 = Nat.iter k (fun y => sweep y now) s) /\
+    Conferred pol (members s0) (live_grants s0 now) parent x lvl.
 Proof. exact op_delegate_sound. Qed.
 
 (* 4. membership alone never confers anything; nor does an edge whose signature does not verify *)
@@ -87,9 +88,9 @@ Proof. exact expiry_removes. Qed.
 (* the unswept variant of the access check is refuted (F-C14-ttl, repaired by the fix: commit; the per-run
    obligation Inst.gen_sweep_ok says the sweep is present in the source) *)
 Theorem C14_lazy_expiry_refuted :
-  exists ops, let '(s, answers) := run default_policy false 3 init 0 ops in
+  exists ops, let '(s, answers) := run default_policy false 3 true init 0 ops in
     nth 3 answers (ACode 9) = ACode R_OK /\
-    ~ Conferred default_policy (members s) (live_grants (fst (run default_policy false 3 init 0 (firstn 3 ops))) 4) 1 5 2.
+    ~ Conferred default_policy (members s) (live_grants (fst (run default_policy false 3 true init 0 (firstn 3 ops))) 4) 1 5 2.
 Proof. exact lazy_expiry_refuted. Qed.
 Theorem C14_source_sweeps_before_checking : gen_sweep_on_check = true.
 Proof. exact (proj1 gen_sweep_ok). Qed.
@@ -98,13 +99,13 @@ Proof. exact (proj1 gen_sweep_ok). Qed.
    no secret VALUE is readable anywhere (store records, audit records, error strings); a secret NAME is readable
    only in error strings (allowed) and in the three known places: access-control node (2), TTL record (3),
    delegation record (4) *)
-Theorem C14_taint_invariant : forall pol sw maxd ops loc t x,
-  In (loc, t) (wlog (fst (run pol sw maxd init 0 ops))) -> In x (exposed t) ->
+Theorem C14_taint_invariant : forall pol sw maxd sg ops loc t x,
+  In (loc, t) (wlog (fst (run pol sw maxd sg init 0 ops))) -> In x (exposed t) ->
   is_value x = false /\ (is_name x = true -> name_ok_loc loc = true).
 Proof. exact taint_invariant. Qed.
 (* the unrestricted statement for names is false (known finding secret-name-at-rest) *)
 Theorem C14_names_at_rest_refuted :
-  exists ops loc t s, In (loc, t) (wlog (fst (run default_policy true 3 init 0 ops))) /\
+  exists ops loc t s, In (loc, t) (wlog (fst (run default_policy true 3 true init 0 ops))) /\
     In (SName s) (exposed t) /\ loc = 2.
 Proof. exact names_at_rest_refuted. Qed.
 
